@@ -77,6 +77,25 @@ def main(tier):
                       "bytes_per_line": bpl, "move_macro": move, "max_passes": 60})
         progs[i] = (prog, src, bpl, move)
         pfiles[i] = (files, fsrc)
+    # a project whose source files share their names (lib/main.asm next to main.asm, a/util.asm and b/util.asm): every file
+    # must still get its own listing
+    cid = n + 1
+    cprog = [G.insn("lda", "imm", G.num(1)), G.import_("lib/main.asm", "l"), G.import_("a/util.asm", "ua"), G.import_("b/util.asm", "ub"), G.insn("rts")]
+    cfiles = {"lib/main.asm": [G.insn("ldx", "imm", G.num(2))], "a/util.asm": [G.label("ua"), G.insn("lda", "imm", G.num(3))], "b/util.asm": [G.label("ub"), G.insn("lda", "imm", G.num(4))]}
+    G.number_statements(cprog)
+    for k, fn in enumerate(sorted(cfiles), 1):
+        c = [100000 * k]
+
+        def f2(st, scope):
+            c[0] += 1
+            st["n"] = c[0]
+        G.walk(cfiles[fn], f2)
+    csrc = G.render(cprog)
+    cfsrc = {fn: G.render(fp) for fn, fp in cfiles.items()}
+    cases.append({"id": cid, "files": dict(cfsrc, **{"main.asm": csrc}), "pc": 0x2000, "want": ["segments", "symbols", "vice", "srcmap", "listing"],
+                  "bytes_per_line": 4, "move_macro": True, "max_passes": 60})
+    progs[cid] = (cprog, csrc, 4, True)
+    pfiles[cid] = (cfiles, cfsrc)
     obs, p = V.run_harness("asmdrive", cases, "C11-drive")
     if len(obs) != len(cases):
         raise V.ToolError("asmdrive produced %d of %d observations: %s" % (len(obs), len(cases), p.stderr[-2000:]))
@@ -133,13 +152,16 @@ def main(tier):
     root = V.fresh_dir("C11-proc")
     nproc = 0
     nprocimp = 0
-    for rec in [r for r in recs if len(r["prog"]) > 2 and r["id"] < 1_000_000][:60 if tier == "quick" else 600]:
+    procsel = [r for r in recs if len(r["prog"]) > 2 and r["id"] < 1_000_000]
+    procsel = procsel[:60 if tier == "quick" else 600] + [r for r in recs if r["id"] == n + 1]
+    for rec in procsel:
         prog, src, bpl, move = progs[rec["id"]]
         d = os.path.join(root, "p%d" % rec["id"])
         os.makedirs(d)
         open(os.path.join(d, "mos.toml"), "w").write('[build]\nentry = "main.asm"\nlisting = true\n[formatting.listing]\nnum-bytes-per-line = %d\n' % bpl)
         open(os.path.join(d, "main.asm"), "w").write(src)
         for fn, t in pfiles[rec["id"]][1].items():
+            os.makedirs(os.path.dirname(os.path.join(d, fn)), exist_ok=True)
             open(os.path.join(d, fn), "w").write(t)
         p = subprocess.run([mos, "--no-color", "-e", "Short", "build"], cwd=d, capture_output=True, timeout=60)
         lst = os.path.join(d, "target", "main.lst")
@@ -160,9 +182,16 @@ def main(tier):
         # the .lst files of the imported files (same rows as in-process with macro output attributed to the invocation)
         files, fsrc = pfiles[rec["id"]]
         for k, fn in enumerate(sorted(files), 1):
-            flst = os.path.join(d, "target", os.path.splitext(fn)[0] + ".lst")
+            # a listing is named after its source file; files that share their name get their directories into it
+            allf = ["main.asm"] + sorted(files)
+            stem = lambda x: os.path.splitext(os.path.basename(x))[0]
+            uniq = sum(1 for x in allf if stem(x) == stem(fn)) == 1
+            flst = os.path.join(d, "target", (stem(fn) if uniq else os.path.splitext(fn)[0].replace("/", "_")) + ".lst")
             rid = 2_000_000 + 10 * rec["id"] + k
             base = next((r for r in recs if r["id"] == rid), None)
+            if base is not None and not os.path.exists(flst):
+                rep.violations.append({"why": "mos build wrote no listing of its own for %s (files sharing a name must not share a listing)" % fn,
+                                       "replay": {"files": dict(fsrc, **{"main.asm": src}), "target": sorted(os.listdir(os.path.join(d, "target")))}, "id": rec["id"]})
             if base is None or not os.path.exists(flst):
                 continue
             o3 = dict(base, id=3_000_000 + 10 * rec["id"] + k, move=True, rows=parse_listing(open(flst).read(), bpl), hasVice=False, vice=[])
